@@ -14,9 +14,9 @@ ID = "C08"
 LEVEL = "exploration"
 ORACLES = ("wcag", "csscolor", "cssmodel")
 RULE = ("generated stylesheets (1-25 uniquely-selected rules; with/without background-color; colours in hex/rgb()/hsl()/keyword spellings; invalid/inherit "
-        "values; custom properties in :root/html: single-use, chained, with fallback, undefined with/without fallback, shared by rules on the same and on "
+        "values; custom properties in :root/html (names in mixed case, with case twins, beyond ASCII): single-use, chained, with fallback, undefined with/without fallback, shared by rules on the same and on "
         "different backgrounds; !important; repeated and upper-case declarations; colour declared directly in :root/html; nesting in @media/@supports to "
-        "depth 4; unrelated at-rules and comments) x --mode {0,1,2} x --premium x --default-bg {absent, keyword, hex, rgb()}; each sheet mixes readable, "
+        "depth 4 with colour-less siblings (rules, comments, at-rules) inside the blocks; selector lists of 150+ characters; unrelated at-rules and comments) x --mode {0,1,2} x --premium x --default-bg {absent, keyword, hex, rgb()}; each sheet mixes readable, "
         "fixable and hard pairs. Directory runs also hold entries the tool cannot process (non-UTF-8 bytes, a directory named *.css) among the good sheets. "
         "Run through the real command (in-process with a recording ColorPair, plus real subprocess runs). Oracle (cssmodel + "
         "csscolor + wcag + the Python API): P1 carded rule's effective colour in the written file == card's after colour; P2 == API result with success; "
